@@ -401,6 +401,28 @@ func genC19(tier string, r *rng, emit func(string)) {
 		emit(fmt.Sprintf("prog f64 %s;%s:reuse.2;new:rm:2,2:9;clone:0", pre, op))
 		emit(fmt.Sprintf("prog f64 %s;%s:incr.3;new:rm:2,2:9;clone:0", pre, op))
 	}
+	// recycled tensor structs: a tensor in some state (lazily transposed, clone of a transposed
+	// tensor, view, materialised, reshaped) goes back to the pool; the next tensors built from the
+	// recycled structs must behave as fresh ones under every structural operation
+	{
+		lives := []string{
+			"T:0:1,0;clone:0;ret:1", "T:0:1,0;ret:0", "slice:0:_/1.3.1;ret:1", "slice:0:_/1.3.1;T:1:1,0;ret:1",
+			"T:0:1,0;slice:0:0.2.1/_;ret:1", "T:0:1,0;mat:0;ret:1", "safeT:0:1,0;ret:1", "T:0:1,0;transpose:0;ret:0",
+			"reshape:0:2,6;ret:0", "T:0:1,0;clone:0;T:1:1,0;ret:1", "clone:0;T:1:1,0;clone:1;ret:1;ret:2",
+		}
+		nexts := []string{"T:%d:1,0;at:%d:0,1", "T:%d:1,0;UT:%d", "T:%d:1,0;transpose:%d", "slice:%d:_/0.1.1", "T:%d:1,0;mat:%d", "T:%d:1,0;clone:%d", "reshape:%d:6", "memset:%d:7", "UT:%d", "transpose:%d"}
+		for _, l := range lives {
+			nt := 1 + strings.Count(l, "clone") + strings.Count(l, "slice") + strings.Count(l, "mat:") + strings.Count(l, "safeT")
+			for _, nx := range nexts {
+				for _, nsh := range []string{"3,2", "2,3", "3,4"} {
+					k := nt
+					step := strings.ReplaceAll(nx, "%d", fmt.Sprint(k))
+					emit(fmt.Sprintf("prog f64 new:rm:3,4:1;%s;new:rm:%s:20;%s", l, nsh, step))
+					emit(fmt.Sprintf("prog f64 new:rm:3,4:1;%s;new:rm:%s:20;new:cm:%s:40;%s;%s", l, nsh, nsh, step, strings.ReplaceAll(nx, "%d", fmt.Sprint(k+1))))
+				}
+			}
+		}
+	}
 	// caller-owned axes slices: T with explicit axes followed by every way of dropping the thunk
 	for _, sh := range allShapes(4, 3) {
 		if len(sh) < 2 {
